@@ -85,7 +85,7 @@ def strategy(tier):
 
 
 def fixed_cases(tier):
-    out = gen_json.fixed_cases()
+    out = gen_json.fixed_cases(big=(tier == "thorough"))
     if tier == "thorough":
         for i in range(39, 1760, 2):
             out.append({"corpus": i, "optimize": 0, "min_version": 7, "normalize": i % 4 == 1, "_label": "corpus_sample"})
